@@ -305,8 +305,27 @@ func vBuildYAMLMatchers(ms []vMatcher) []match.YAMLMatcher {
 	return res
 }
 
+// vResolveJSON: the JSON text a Match*JSON call is about, independent of the library (see doMatch)
+func vResolveJSON(input any) ([]byte, bool) {
+	switch v := input.(type) {
+	case string:
+		return []byte(v), json.Valid([]byte(v))
+	case []byte:
+		return append([]byte{}, v...), json.Valid(v)
+	default:
+		b, err := json.Marshal(v)
+		if err != nil {
+			return nil, false
+		}
+		return b, true
+	}
+}
+
 func vInput(form string, doc []byte) any {
 	switch form {
+	case "rawmsg":
+		// a Go value whose top-level type implements json.Marshaler
+		return json.RawMessage(append([]byte{}, doc...))
 	case "bytes":
 		return append([]byte{}, doc...)
 	case "value":
@@ -490,8 +509,10 @@ func (r *vRunner) doMatch(o vOp) {
 		}
 	case "json", "standjson":
 		doc := vunhex(o.Doc)
-		j, err := validateJSON(vInput(o.Form, doc))
-		if err != nil {
+		// what the call must be judged against is computed WITHOUT the library's own validateJSON: text input is
+		// the text itself if it is valid JSON (encoding/json's strict validator), a Go value is json.Marshal(value)
+		j, jok := vResolveJSON(vInput(o.Form, doc))
+		if !jok {
 			pre = "invalid"
 		} else {
 			j = append([]byte{}, j...)
